@@ -122,7 +122,8 @@ Definition read_leaf (k : lkind) (s : stream) : res leaf :=
                         do (b, a2) <- read_u 4 a;
                         if negb (memz b model_blend_modes) then Err ValueErr else Ok (Some (sg, b), a2)
                       else Ok (None, s1));
-      do (sub, _) <- r_opt (is_readable 4 s2) (read_u 4) s2;
+      (* since /repo de58475: `if signature is not None and is_readable(fp, 4)` (before: is_readable alone, Psd/Legacy.v) *)
+      do (sub, _) <- r_opt (is_some sb && is_readable 4 s2) (read_u 4) s2;
       Ok (LSectionDivider kind (option_map fst sb) (option_map snd sb) sub)
   | KSheetColor =>
       do (v, s1) <- read_u 2 s; do (_, _) <- take 6 s1;
